@@ -31,3 +31,8 @@ Example C17_nonvacuous :
   let h := mkH 1 false [] in
   snd (reg_run [] [OAdd h; OAdd h; OAdd h; ORemove 1; OAdd h; ORemove 7]) = [RId 0; RId 1; RId 2; ROk; RId 1; RNoSuch].
 Proof. reflexivity. Qed.
+
+(* the extracted checker accepts the model's observations of every operation history (the table it rebuilds from the returned ids is the model's) *)
+Require Import RP.Glue.Wire RP.Glue.StreamLink RP.Glue.StreamProto RP.Lemmas.GlueLemmas.
+Theorem C17_checker_accepts_model : forall case own ops, pro_split case = Some (own, ops) -> ok_C17 case (run_PRO case) = [].
+Proof. exact ok_C17_accepts_model. Qed.
